@@ -579,6 +579,57 @@ fn t_window() -> Result<String, String> {
     Ok("closed window = 1 execution".into())
 }
 
+fn spurious_body(o: Obs<(bool, bool)>, spurious: bool, use_while: bool) {
+    // consumer waits ONCE (`if` instead of `while`): right without spurious wake-ups,
+    // wrong with them
+    ctl::spurious(spurious);
+    let st = Arc::new(Mutex::new(false));
+    let cv = Arc::new(Condvar::new());
+    let (st2, cv2, o2) = (st.clone(), cv.clone(), o.clone());
+    let h = thread::spawn(move || {
+        let mut g = st2.lock().unwrap();
+        if use_while {
+            while !*g {
+                g = cv2.wait(g).unwrap();
+            }
+        } else if !*g {
+            g = cv2.wait(g).unwrap();
+        }
+        o2.lock().unwrap().0 = *g;
+    });
+    ctl::settle(); // the consumer is parked in its wait
+    {
+        let mut g = st.lock().unwrap();
+        *g = true;
+    }
+    cv.notify_one();
+    h.join().unwrap();
+    o.lock().unwrap().1 = true;
+}
+
+fn t_spurious() -> Result<String, String> {
+    let mut msg = String::new();
+    for (spurious, use_while, want_bad) in [(false, false, false), (true, false, true), (true, true, false)] {
+        for bound in [0u32, 1] {
+            let (s, r) = explore_all::<(bool, bool), _>(Mode::Chess, Some(bound), move |o| spurious_body(o, spurious, use_while));
+            let bad = r.iter().filter(|(res, ob)| res.end != End::Clean || !ob.0 || !ob.1).count();
+            let woke: u64 = r.iter().map(|(res, _)| res.spurious_wakes).sum();
+            let expect_bad = want_bad && bound >= 1;
+            if (bad > 0) != expect_bad {
+                return Err(format!("spurious={} while={} bound={}: {} bad executions of {}", spurious, use_while, bound, bad, s.execs));
+            }
+            if spurious && bound >= 1 && woke == 0 {
+                return Err("no spurious wake-up was ever taken".into());
+            }
+            if (!spurious || bound == 0) && woke != 0 {
+                return Err("spurious wake-up taken although not allowed / not affordable".into());
+            }
+            msg += &format!("sp={} while={} b={}: {}/{} bad; ", spurious, use_while, bound, bad, s.execs);
+        }
+    }
+    Ok(msg)
+}
+
 fn main() {
     let tests: Vec<(&str, fn() -> Result<String, String>)> = vec![
         ("lost-update@bound", t_lost_update),
@@ -593,6 +644,7 @@ fn main() {
         ("mem-network", t_net),
         ("panic-recording", t_panic_recorded),
         ("window", t_window),
+        ("spurious-wakeup", t_spurious),
     ];
     let mut failed = 0;
     for (name, f) in tests {
